@@ -765,9 +765,9 @@ def nested_eml_attachment(rng, tok, fx: dict, pol: str) -> dict:
     inner["atts"] = []
     inner["wrap_mixed"] = False
     long_hdr = rng.random() < 0.5
-    # a header line > 78 columns is folded by the writer; a reader that re-serialises the attached message
-    # instead of returning its bytes re-folds it differently
-    inner["message_id"] = (f"<{tok('i')}-" + "0123456789-" * 4 + "@very.long.host.name.example.com>") if long_hdr else f"<{tok('i')}@in.example.com>"
+    # "Message-ID: <71 chars>" is 83 columns: the writer folds it as "Message-ID:" CRLF SP "<...>"; a reader that
+    # re-serialises the attached message instead of returning its bytes writes "Message-ID: " CRLF SP "<...>"
+    inner["message_id"] = (f"<{tok('i')}-" + "0123456789-" * 3 + "@long.host.name.example.com>") if long_hdr else f"<{tok('i')}@in.example.com>"
     inner["features"] = ["inner", "inner:long-header" if long_hdr else "inner:short-headers"]
     return {"filename": f"{tok('f')}.eml", "ctype": "message/rfc822", "kind": "eml", "disp": "attachment", "cte": "8bit",
             "inner": inner, "data": b""}
